@@ -65,16 +65,22 @@ fn rd_doc(c: &mut Cur) -> Doc {
     Doc { nl, links }
 }
 
-fn write_doc<W: Write>(w: &mut W, d: &Doc) -> Result<(), std::fmt::Error> {
+fn write_doc<W: Write>(w: &mut W, d: &Doc) -> Result<(), std::fmt::Error> { write_doc_styled(w, d, 0) }
+
+/// style 0: every link closed with finish(); 1: the per-link writers are simply dropped (the API allows it);
+/// 2: set_add_newlines is called again (same value) before every link and before the final finish()
+fn write_doc_styled<W: Write>(w: &mut W, d: &Doc, style: u64) -> Result<(), std::fmt::Error> {
     let mut lw = LinkFormatWrite::new(w);
     lw.set_add_newlines(d.nl);
     for (t, attrs) in d.links.iter() {
+        if style == 2 { lw.set_add_newlines(d.nl); }
         let mut aw: LinkAttributeWrite<W> = lw.link(t);
         for (k, kind, v, n) in attrs.iter() {
             aw = match kind { 0 => aw.attr(k, v), 1 => aw.attr_quoted(k, v), 2 => aw.attr_u32(k, *n as u32), _ => aw.attr_u16(k, *n as u16) };
         }
-        let _ = aw.finish();
+        if style == 1 { drop(aw); } else { let _ = aw.finish(); }
     }
+    if style == 2 { lw.set_add_newlines(d.nl); }
     lw.finish()
 }
 
@@ -109,8 +115,9 @@ impl Write for FaultSink {
 pub fn exec180(input: &[u64]) -> Vec<u64> {
     let mut c = Cur::new(&input[2..]);
     let d = rd_doc(&mut c);
-    let mut sink = FaultSink { calls: 0, accepted: Vec::new(), k: input[0], mode: input[1] };
-    let r = write_doc(&mut sink, &d);
+    // mode = 2 * style + (0 fail once | 1 fail from k on)
+    let mut sink = FaultSink { calls: 0, accepted: Vec::new(), k: input[0], mode: input[1] % 2 };
+    let r = write_doc_styled(&mut sink, &d, input[1] / 2);
     let mut out = vec![r.is_err() as u64, sink.calls, sink.accepted.len() as u64];
     for a in sink.accepted.iter() { wr_str(&mut out, a); }
     out
@@ -120,6 +127,7 @@ pub fn exec180(input: &[u64]) -> Vec<u64> {
 const ALPHA: [char; 11] = ['<', '>', ';', ',', '"', '\\', '=', ' ', 'a', 'é', '\n'];
 
 fn rand_value(r: &mut Rng, maxlen: u64) -> String {
+    if r.chance(1, 25) { return r.pick(&["Sensor\r\n Index", "a\r\n\tb", "\r\n x", "x\r\n", "a=b=c", "k=\"v\"", "/q?u=1&v=2"]).to_string(); }
     let n = r.below(maxlen + 1);
     (0..n).map(|_| match r.below(10) { 0..=5 => r.pick(&ALPHA), 6 => r.pick(&['€', '𝄞', '\u{a0}', '\u{3000}', '\t', '\r']),
         // every Unicode White_Space code point and both neighbours of each run (what str::trim and char::is_whitespace decide)
@@ -127,6 +135,8 @@ fn rand_value(r: &mut Rng, maxlen: u64) -> String {
                                                      8231, 8232, 8233, 8234, 8238, 8239, 8240, 8286, 8287, 8288, 12287, 12288, 12289, 0x180e, 0x200b, 0xfeff])).unwrap(), 7 => r.pick(&['0', '9', 'Z', 'z']), _ => char::from_u32(32 + r.below(95) as u32).unwrap() }).collect()
 }
 fn rand_key(r: &mut Rng) -> String {
+    // registered attribute names, so that one link repeats a name that a specification gives a meaning to
+    if r.chance(1, 4) { return r.pick(&["rel", "rt", "if", "anchor", "title", "rel"]).to_string(); }
     let n = r.below(4);
     (0..n).map(|_| r.pick(&['k', 'e', 'y', '<', '>', '\\', 'é', '-', '1'])).collect()
 }
@@ -249,7 +259,7 @@ pub fn gen180(tier: &str, r: &mut Rng, emit: &mut dyn FnMut(Vec<u64>)) {
             let mut sink = FaultSink { calls: 0, accepted: Vec::new(), k: u64::MAX, mode: 0 };
             let _ = write_doc(&mut sink, &d);
             let ncalls = sink.calls;
-            for k in 0..=ncalls { for mode in 0..2u64 {
+            for k in 0..=ncalls { for mode in 0..6u64 {
                 let mut v = vec![k, mode]; write_doc_desc(&mut v, nl, &links); emit(v);
             } }
         }
